@@ -343,8 +343,39 @@ def _skeletonize(tier, seed):
     nets = ["examples/networks/Net1.inp", "examples/networks/Net2.inp", "examples/networks/Net3.inp", "wntr/tests/networks_for_testing/skeletonize.inp",
             "wntr/tests/networks_for_testing/Anytown.inp"] + (["examples/networks/Net6.inp"] if tier == "thorough" else [])
     inch = 0.0254
+
+    def generated(k):
+        """small random networks: trees with loops and a parallel pair; junctions carry 0-3 demand entries with negative (inflow), zero
+        and positive base values and different patterns; two pipe sizes so that every threshold trims / merges something"""
+        import random
+        rng = random.Random(1000 * seed + k)
+        wn = wntr.network.WaterNetworkModel()
+        wn.options.time.duration = 6 * 3600
+        wn.options.time.hydraulic_timestep = 3600
+        wn.options.time.pattern_timestep = 3600
+        wn.add_pattern("use", [1.0, 1.5, 0.5, 2.0, 0.8, 1.2])
+        wn.add_pattern("inj", [0.0, 1.0, 2.0, 1.0, 0.5, 0.0, 3.0])
+        wn.add_reservoir("R", base_head=60.0, coordinates=(0, 0))
+        n = rng.randint(5, 9)
+        names = ["R"]
+        for i in range(n):
+            nm = "J%d" % i
+            wn.add_junction(nm, base_demand=0.0, elevation=10.0, coordinates=(i + 1, rng.randint(-2, 2)))
+            j = wn.get_node(nm)
+            del j.demand_timeseries_list[:]
+            for e in range(rng.randint(0, 3)):
+                j.add_demand(rng.choice([-0.002, -0.0005, 0.0, 0.001, 0.003]), rng.choice([None, "use", "inj"]), category=rng.choice([None, "a", "b"]))
+            parent = rng.choice(names)
+            wn.add_pipe("P%d" % i, parent, nm, length=rng.choice([50.0, 120.0]), diameter=rng.choice([3 * inch, 10 * inch]), roughness=100)
+            names.append(nm)
+        for e in range(rng.randint(0, 2)):       # extra links: loops, possibly parallel to an existing pipe
+            a, b = rng.sample(names[1:], 2)
+            wn.add_pipe("X%d" % e, a, b, length=80.0, diameter=rng.choice([3 * inch, 10 * inch]), roughness=100)
+        return wn
+    ngen = 12 if tier == "quick" else 60
+    nets = list(nets) + ["generated:%d" % k for k in range(ngen)]
     for rel in nets:
-        wn = wntr.network.WaterNetworkModel(os.path.join(root, rel))
+        wn = generated(int(rel.split(":")[1])) if rel.startswith("generated:") else wntr.network.WaterNetworkModel(os.path.join(root, rel))
         ctrl_elems = set()
         for cn, c in wn.controls():
             for r in c.requires():
@@ -354,7 +385,7 @@ def _skeletonize(tier, seed):
             for opts in ((True, True, True), (True, False, False), (False, True, False), (False, False, True)):
                 try:
                     w2, smap = wntr.morph.skeletonize(wn, thr, branch_trim=opts[0], series_pipe_merge=opts[1], parallel_pipe_merge=opts[2],
-                                                      return_map=True)
+                                                      return_map=True, use_epanet=not rel.startswith("generated:"))
                 except Exception as e:
                     failures.append(dict(net=rel, threshold=thr, options=opts, raised=repr(e)[:200]))
                     continue
@@ -376,7 +407,7 @@ def _skeletonize(tier, seed):
                     samples.append(dict(net=rel, threshold_m=thr, options=opts, nodes_before=wn.num_nodes, nodes_after=w2.num_nodes))
     return dict(evaluations=evals, distinct_nontrivial=len(distinct), failures=failures[:10], samples=samples, exhaustive=False,
                 scope="%s (Net2 carries a quality source on a dead-end junction) x 4 diameter thresholds x 4 operation subsets: tanks/reservoirs/pumps/valves/control elements kept, "
-                      "total expected demand per time conserved, skeleton map is a partition of the original nodes onto the retained ones" % ", ".join(n.split('/')[-1] for n in nets))
+                      "total expected demand per time conserved, skeleton map is a partition of the original nodes onto the retained ones" % (", ".join(n.split('/')[-1] for n in nets if not n.startswith("generated:")) + " and %d generated networks with inflow / zero / multi-entry demands" % ngen))
 
 
 BOUNDED = [Bounded("C19.split_break_with_vertices", P, _split_vertices, kind="random polylines, run-time contract"),
